@@ -7,7 +7,8 @@ sit on) are driven over `httpx.Response(200, content=<async byte-chunk iterator>
 Oracle (written from the property text, independent of the model):
   (a) for every chunking: items == items for the unsplit stream (bytes: concatenation == stream);
   (b) for streams produced by the sender below: decoded events == the events that were encoded
-      (data lines joined by "\n", comments ignored, last event/id/retry, final unterminated event delivered);
+      (data lines joined by "\n", comments ignored - a comment-only block is no event -, last event/id/retry,
+      final unterminated event delivered);
       NDJSON: decoded records == the records that were written.
 """
 from __future__ import annotations
@@ -61,6 +62,8 @@ def gen_text(rng, p_exotic=0.06, p_lead=0.06) -> str:
 def gen_block(rng, clean: bool) -> list:
     px, pl = (0.0, 0.0) if clean else (0.06, 0.06)
     items = []
+    if not clean and rng.random() < 0.07:   # a keep-alive: comments only
+        return [["comment", gen_text(rng, 0.0, 0.2)] for _ in range(rng.randint(1, 2))]
     for _ in range(rng.randint(1, 5)):
         r = rng.random()
         if r < 0.55:
@@ -130,13 +133,14 @@ def gen_raw(rng) -> bytes:
         if rng.random() < 0.1 and b:  # truncated in the middle of a character: the end of a broken connection
             b = b[:rng.randrange(len(b))]
         return b
-    if r < 0.9:
+    if r < 0.85:
         alpha = [b"a", b":", b" ", b"\n", b"\r", b"\r\n", b"d", b"\xc3\xa9", b"\xe2\x82\xac", b"\xf0\x9f\x98\x80", b"\xc2\x85",
                  b"\xe2\x80\xa8", b"\x0c", b"data: ", b"\n\n", b"1", b"{}", b"\t"]
         return b"".join(rng.choice(alpha) for _ in range(rng.randint(0, 14)))
     # ill-formed UTF-8 (outside the model; the oracle still demands chunk independence)
-    alpha = [b"a", b"\n", b"\r", b"\xc3", b"\xa9", b"\xe2", b"\x82", b"\xf0", b"\xff", b"\xc0\xaf", b"\xed\xa0\x80", b"data: ", b":"]
-    return b"".join(rng.choice(alpha) for _ in range(rng.randint(1, 10)))
+    alpha = [b"a", b"\n", b"\r", b"\xc3", b"\xa9", b"\xe2", b"\x82", b"\xf0", b"\xff", b"\xc0\xaf", b"\xed\xa0\x80", b"data: ", b":",
+             b"\xed\xa0", b"\xed", b"\xbf", b"\xf4\x90", b"\xf0\x9f\x98", b"\xe0\x80", b"\x80", b"\n\n", b"\xe2\x80\xa8", b"\xc2"]
+    return b"".join(rng.choice(alpha) for _ in range(rng.randint(1, 12)))
 
 
 def interesting_cuts(stream: bytes) -> list[int]:
@@ -224,6 +228,8 @@ def encode_nd(spec: dict) -> bytes:
 def expected_events(spec: dict) -> list:
     out = []
     for b in spec["blocks"]:
+        if all(k == "comment" for k, _ in b):
+            continue  # comments are ignored: a block made of comments only (keep-alive) carries no event
         data = "\n".join(s for k, s in b if k == "data")
         ev = next((s for k, s in reversed(b) if k == "event"), None)
         i = next((s for k, s in reversed(b) if k == "id"), None)
@@ -269,11 +275,12 @@ def stream_of(inp: dict) -> bytes:
 
 
 def well_formed(stream: bytes) -> bool:
+    """strict decoding succeeds, or fails only because the stream ends inside a (so far legal) character"""
     try:
-        codecs.getincrementaldecoder("utf-8")("strict").decode(stream, False)
+        stream.decode("utf-8")
         return True
-    except UnicodeDecodeError:
-        return False
+    except UnicodeDecodeError as e:
+        return e.reason == "unexpected end of data" and e.end == len(stream)
 
 
 def canon(v: Any) -> str:
@@ -285,6 +292,124 @@ async def run_case_async(inp: dict) -> dict:
     per = [await _observe(chunks_of(stream, cuts)) for cuts in inp["chunkings"]]
     whole = await _observe([stream])
     return {"input": inp, "per": per, "whole": whole}
+
+
+# ---------------------------------------------------------------- end to end: a generated client
+def e2e_spec() -> dict:
+    import pipeline
+    def op(oid: str, media: str, schema: dict) -> dict:
+        return {"get": {"operationId": oid, "tags": ["t"],
+                        "responses": {"200": {"description": "ok", "content": {media: {"schema": schema}}}}}}
+    return pipeline.base_spec({
+        "/sse": op("get_sse", "text/event-stream", {"type": "object"}),
+        "/nd": op("get_nd", "application/x-ndjson", {"type": "object"}),
+        "/bin": op("get_bin", "application/octet-stream", {"type": "string", "format": "binary"}),
+    })
+
+
+E2E_DRIVER = r'''
+import asyncio, importlib, httpx, json
+def main(arg):
+    cm = importlib.import_module("client.client")
+    cfgm = importlib.import_module("client.core.config")
+    return asyncio.run(run(cm, cfgm, arg["jobs"]))
+async def run(cm, cfgm, jobs):
+    cur = {}
+    def handler(req):
+        async def chunks():              # the server: the same async byte-chunk iterator the helpers are driven with
+            for c in cur["chunks"]:
+                yield c
+        return httpx.Response(200, content=chunks(), headers={"content-type": cur["ct"]})
+    api = cm.APIClient(cfgm.ClientConfig(base_url="http://srv.test"))
+    await api.transport._client.aclose()
+    api.transport._client = httpx.AsyncClient(base_url="http://srv.test", transport=httpx.MockTransport(handler))
+    out = []
+    for stream_hex, cuts in jobs:
+        body = bytes.fromhex(stream_hex)
+        pts = [0] + list(cuts) + [len(body)]
+        cur["chunks"] = [body[a:b] for a, b in zip(pts, pts[1:])]
+        row = {}
+        for op, ct in (("get_sse", "text/event-stream"), ("get_nd", "application/x-ndjson"),
+                       ("get_bin", "application/octet-stream")):
+            cur["ct"] = ct
+            items, status = [], "ok"
+            try:
+                async for x in getattr(api.t, op)():
+                    items.append(x.hex() if isinstance(x, (bytes, bytearray)) else x)
+            except ValueError:
+                status = "json"          # json.loads raised on an event's data
+            except BaseException as e:
+                status = "EXC " + type(e).__name__ + ": " + str(e)[:100]
+            row[op] = [items, status]
+        out.append(row)
+    await api.close()
+    return out
+'''
+
+
+def run_e2e(chk: Check, results: list[dict]) -> dict:
+    """Drive a client generated by the real generator (text/event-stream, ndjson and octet-stream operations) against a
+    MockTransport server that sends the same chunk lists.  Fills r["e2e"] (one row per driven chunking) and returns what
+    the generated endpoint code calls."""
+    import re
+    import pipeline
+    info: dict[str, Any] = {}
+    g = pipeline.generate(e2e_spec(), package="client")
+    try:
+        if not g.ok:
+            chk.broken.append({"kind": "pipeline", "name": "generate(e2e spec)", "detail": str(g.error)})
+            return {"generated": False, "error": str(g.error)}
+        src = g.read("client/endpoints/t.py")
+        calls = re.findall(r"async def (get_\w+)\(.*?async for chunk in (\w+)\(response\):\s*\n\s*yield ([^\n]+)", src, re.S)
+        info["generated_calls"] = {m: f"async for chunk in {h}(response): yield {y.strip()}" for m, h, y in calls}
+        tsrc = g.read("client/core/http_transport.py")
+        info["transport_reads_whole_body"] = ("self._client.request(" in tsrc) and (".stream(" not in tsrc)
+        jobs, owner = [], []
+        per_stream = 4 if chk.thorough else 2
+        for ri, r in enumerate(results):
+            cs = r["input"]["chunkings"]
+            pick = [0] + sorted(range(1, len(cs)), key=lambda i: -len(cs[i]))[:per_stream - 1]
+            for ci in pick:
+                jobs.append([r["input"]["stream"], cs[ci]])
+                owner.append(ri)
+        res = pipeline.drive(g, E2E_DRIVER, {"jobs": jobs}, timeout=1500)
+        if not res.get("ok"):
+            chk.broken.append({"kind": "pipeline", "name": "drive(generated client)", "detail": str(res)[:1500]})
+            return {**info, "driven": False}
+        for ri, row in zip(owner, res["result"]):
+            results[ri].setdefault("e2e", []).append(row)
+        info["e2e_calls"] = 3 * len(jobs)
+        return info
+    finally:
+        g.cleanup()
+
+
+def oracle_e2e(r: dict) -> list[str]:
+    """(a) the generated client's items do not depend on how the server's bytes were chunked; (b) they are what the
+    helper yields on the unsplit stream (json.loads of every non-empty event data / the bytes sent)."""
+    rows = r.get("e2e")
+    if not rows:
+        return []
+    fails = []
+    if any(canon(row) != canon(rows[0]) for row in rows[1:]):
+        fails.append("generated client: items depend on how the server chunked the body")
+    stream = stream_of(r["input"])
+    row = rows[0]
+    if bytes.fromhex("".join(row["get_bin"][0])) != stream or row["get_bin"][1] != "ok":
+        fails.append("generated client (octet-stream): streamed chunks differ from the bytes sent")
+    tev = r["whole"]["tev"]
+    if isinstance(tev, list):
+        exp, status = [], "ok"
+        for t in tev:
+            try:
+                exp.append(json.loads(t))
+            except ValueError:
+                status = "json"
+                break
+        for op in ("get_sse", "get_nd"):
+            if canon(row[op]) != canon([exp, status]):
+                fails.append(f"generated client ({op}): items differ from json.loads of iter_sse_events_text on the same stream")
+    return fails
 
 
 # ---------------------------------------------------------------- the property's own oracle
@@ -365,13 +490,12 @@ def c_spec(inp: dict) -> str:
     return "SRaw"
 
 
-def oracle_tables(stream: bytes) -> tuple[list[tuple[str, int]], dict[str, int], list[tuple[str, int]]]:
+def oracle_tables(stream: bytes, extra_json: list[str] = ()) -> tuple:
     """CPython's int() / json.loads() on every string the helpers could hand them for this stream:
     candidates are taken from str.splitlines of the whole decoded text (a superset is harmless)."""
-    if not well_formed(stream):
-        return [], {}, []
     text = stream.decode("utf-8", errors="replace")
     ints: dict[str, int] = {}
+    int_fail: set[str] = set()
     ids: dict[str, int] = {}
     jtab: dict[str, int] = {}
     for line in text.splitlines():
@@ -382,15 +506,22 @@ def oracle_tables(stream: bytes) -> tuple[list[tuple[str, int]], dict[str, int],
                     try:
                         ints[v] = int(v)
                     except ValueError:
-                        pass
-        s = line.strip()
-        if s:
-            try:
-                d = canon(json.loads(s))
-            except ValueError:
-                continue
-            jtab[s] = ids.setdefault(d, len(ids))
-    return sorted(ints.items()), ids, sorted(jtab.items())
+                        if v.isascii() and len(v) <= 40:
+                            int_fail.add(v)
+        for s in (line.strip(), line):
+            if s:
+                try:
+                    d = canon(json.loads(s))
+                except ValueError:
+                    continue
+                jtab[s] = ids.setdefault(d, len(ids))
+    for s in extra_json:   # strings the generated client hands to json.loads (event data, possibly multi-line)
+        try:
+            d = canon(json.loads(s))
+        except ValueError:
+            continue
+        jtab[s] = ids.setdefault(d, len(ids))
+    return sorted(ints.items()), ids, sorted(jtab.items()), sorted(int_fail)
 
 
 def c_case(r: dict) -> str | None:
@@ -398,7 +529,8 @@ def c_case(r: dict) -> str | None:
     none is modelled): then the case counts as a correspondence failure by itself."""
     inp, per, whole = r["input"], r["per"], r["whole"]
     stream = stream_of(inp)
-    ints, ids, jtab = oracle_tables(stream)
+    e2e = r.get("e2e")
+    ints, ids, jtab, int_fail = oracle_tables(stream, [t for t in whole["tev"] if isinstance(t, str)] if isinstance(whole["tev"], list) else [])
     bad = not well_formed(stream)
     chunkings = [chunks_of(stream, c) for c in inp["chunkings"]]
 
@@ -412,17 +544,22 @@ def c_case(r: dict) -> str | None:
     o0 = per[0]
     if any(isinstance(o[k], str) for o in per for k in ("sse", "tev")):
         return None
+    ce2e = "None"
+    if e2e is not None:
+        row = e2e[0]
+        if any(row[op][1] not in ("ok", "json") for op in ("get_sse", "get_nd", "get_bin")):
+            return None
+        ce2e = (f"(Some ({nd_ids([row['get_sse'][0], row['get_sse'][1] == 'json'])}, "
+                f"{nd_ids([row['get_nd'][0], row['get_nd'][1] == 'json'])}, "
+                f"{clist(cstr(bytes.fromhex(b)) for b in row['get_bin'][0])}))")
     ci = (f"{{| i_chunkings := {clist(clist(cstr(c) for c in cs) for cs in chunkings)}; i_spec := {c_spec(inp)}; "
-          f"i_int := {clist(cpair(cstr(k), cZ(v)) for k, v in ints)}; "
+          f"i_int := {clist(cpair(cstr(k), cZ(v)) for k, v in ints)}; i_int_fail := {clist(cstr(k) for k in int_fail)}; "
           f"i_json := {clist(cpair(cstr(k), str(v)) for k, v in jtab)} |}}")
     same_bytes = all(o["bytes"] == cs for o, cs in zip(per, chunkings))
     bl = "(i_chunkings i)" if same_bytes else clist(clist(cstr(b) for b in o["bytes"]) for o in per)
     texts = clist(clist(cstr(t) for t in o["texts"]) for o in per)
-    if bad:
-        obs = f"expand {bl} true {texts} [] [] [] ([], false)"
-    else:
-        obs = (f"expand {bl} false {texts} {clist(cstr(l) for l in o0['lines'])} {clist(c_event(e) for e in o0['sse'])} "
-               f"{clist(cstr(t) for t in o0['tev'])} {nd_ids(o0['nd'])}")
+    obs = (f"expand {bl} {cbool(bad)} {texts} {clist(cstr(l) for l in o0['lines'])} {clist(c_event(e) for e in o0['sse'])} "
+           f"{clist(cstr(t) for t in o0['tev'])} {nd_ids(o0['nd'])} {ce2e}")
     return f"(let i := {ci} in (i, {obs}))"
 
 
@@ -447,7 +584,8 @@ def split_by_obs(r: dict) -> list[dict]:
     out = []
     for idxs in groups.values():
         inp = {**r["input"], "chunkings": [r["input"]["chunkings"][i] for i in idxs]}
-        out.append({"input": inp, "per": [r["per"][i] for i in idxs], "whole": r["whole"]})
+        out.append({"input": inp, "per": [r["per"][i] for i in idxs], "whole": r["whole"],
+                    **({"e2e": r["e2e"]} if "e2e" in r else {})})
     return out
 
 
@@ -521,6 +659,7 @@ def main(chk: Check, replay: dict | None = None) -> int:
     ]
     inputs = build_inputs(chk)
     results = run_all(inputs)
+    e2e_info = run_e2e(chk, results)
     cases: list[dict] = []
     coq_cases: list[str] = []
     unprintable: list[dict] = []
@@ -536,6 +675,7 @@ def main(chk: Check, replay: dict | None = None) -> int:
         inp = r["input"]
         st = stream_of(inp)
         fails, dep = oracle(inp, r["per"], r["whole"])
+        fails = fails + oracle_e2e(r)
         rep_inp = inp
         if dep is not None:  # report the failing chunking alone; minimise its cut set for the first few
             n_min += 1
@@ -572,6 +712,7 @@ def main(chk: Check, replay: dict | None = None) -> int:
     chk.cov["evaluations"] = n_eval
     chk.cov["distinct_nontrivial"] = len(distinct)
     chk.cov["input_distribution"] = {**dist, **stats, "streams": len(results)}
+    chk.cov["end_to_end"] = e2e_info
     for r in results[:1] + results[len(results) // 2:len(results) // 2 + 2]:
         chk.sample({"input": {k: v for k, v in r["input"].items() if k != "chunkings"},
                     "chunkings": r["input"]["chunkings"][:3], "whole": jsonable(r["whole"])})
@@ -600,7 +741,7 @@ def main(chk: Check, replay: dict | None = None) -> int:
     # evidence but is neither a broken correspondence nor a reason to turn known findings into violations.
     dcodes = None
     if codes is not None:
-        ITEM = (1 << 8) | sum(1 << b for b in range(11, 18))
+        ITEM = (1 << 8) | sum(1 << b for b in range(11, 20))
         SHAPE = (1 << 9) | (1 << 10)
         dcodes = [(c & ~1 & 0xFF) | (1 if c & ITEM else 0) for c in codes]
         shape = [cases[i] for i, c in enumerate(codes) if c & SHAPE]
@@ -615,8 +756,8 @@ def main(chk: Check, replay: dict | None = None) -> int:
                "Corr.C18.run: model(chunks) = real helpers over httpx.Response(content=<async chunk iterator>)")
     if codes is not None:
         diag = {}
-        names = {8: "bad-flag", 9: "bytes", 10: "texts", 11: "lines", 12: "sse", 13: "events_text", 14: "ndjson",
-                 15: "encoder", 16: "same-stream", 17: "arity"}
+        names = {8: "ill-formed-flag", 9: "bytes", 10: "texts", 11: "lines", 12: "sse", 13: "events_text", 14: "ndjson",
+                 15: "end-to-end", 16: "encoder", 17: "same-stream", 18: "arity", 19: "int()-grammar"}
         for c in codes:
             for b, nme in names.items():
                 if (c >> b) & 1:
